@@ -398,6 +398,16 @@ func ParseNameAddrPVal(h HdrT, buf []byte, offs int, pfrom *PFromBody) (int, Err
 				} else {
 					pfrom.state = fbNewPossibleParam
 				}
+			case ',':
+				if multipleValsOk(h) {
+					// e.g.: <sip:a>;lr , <sip:b>
+					retOkErr = ErrHdrMoreValues
+					n = i
+					crl = 1
+					i = pfrom.pend // trimmed end (start of the whitespace)
+					goto endOfHdr
+				}
+				return i, ErrHdrBadChar
 			default:
 				// no other char allowed after a param name token
 				// (the whitespace was already skipped in fb*ParamName)
@@ -491,6 +501,16 @@ func ParseNameAddrPVal(h HdrT, buf []byte, offs int, pfrom *PFromBody) (int, Err
 					pfrom.state = fbNewPossibleParam
 					setFromParamVal(buf, pfrom)
 				}
+			case ',':
+				if multipleValsOk(h) {
+					// e.g.: <sip:a>;expires=10 , <sip:b>
+					retOkErr = ErrHdrMoreValues
+					n = i
+					crl = 1
+					i = pfrom.vend // trimmed end (start of the whitespace)
+					goto endOfHdr
+				}
+				return i, ErrHdrBadChar
 			default:
 				// no other char allowed after a param value token
 				return i, ErrHdrBadChar
